@@ -210,6 +210,8 @@ class YieldingTransport(object):
     self.rpos = 0
     self.interleave_opportunities = 0
     self.in_write = 0
+    self.timeouts = {}
+    self.expired = 0
 
   def _yield(self):
     for _ in range(self.rnd.choice([1, 1, 2, 5])):
@@ -219,6 +221,11 @@ class YieldingTransport(object):
 
   def write(self, data, timeout_ms=None):
     self.written.append((threading.get_ident(), data))
+    if isinstance(data, bytes) and len(data) == 24 and self.rnd.random() < 0.35:
+      to = self.timeouts.get(threading.get_ident())
+      if to is not None:
+        to.expire()          # the writer's timeout expires between its header and its payload
+        self.expired += 1
     self._yield()
     return len(data)
 
@@ -249,7 +256,9 @@ def check_concurrent(case):
   def writer(frames):
     try:
       for f in frames:
-        ad.write_message(mk_msg(m, f), timeouts.PolledTimeout.from_millis(5000))
+        to = timeouts.PolledTimeout.from_millis(5000)
+        t.timeouts[threading.get_ident()] = to
+        ad.write_message(mk_msg(m, f), to)
     except Exception as e:  # pylint: disable=broad-except
       errors.append(e)
 
@@ -320,8 +329,120 @@ def check_concurrent(case):
   tids = [tid for tid, _ in chunks]
   switches = sum(1 for a, b in zip(tids, tids[1:]) if a != b)
   r.nontrivial = switches >= 2
-  r.classes = ['concurrent', 'writers:%d' % len(case['writers']), 'switches:%s' % ('0' if not switches else '1-3' if switches <= 3 else '>3')]
+  r.classes = ['concurrent', 'writers:%d' % len(case['writers']), 'switches:%s' % ('0' if not switches else '1-3' if switches <= 3 else '>3'), 'expired-timeouts:%s' % ('0' if not t.expired else '>0')]
   return r
+
+
+def parse_wire(chunks, expected):
+  """Parses a chunk log [(writer, chunk)] as whole frames. Returns an error string or None."""
+  got, i = [], 0
+  chunks = [(w, c) for w, c in chunks if len(c)]
+  while i < len(chunks):
+    w, c = chunks[i]
+    if not (isinstance(c, bytes) and len(c) == 24):
+      return 'chunk %d is not a header: %r' % (i, c[:20])
+    h = fk.parse_header(c)
+    payload = ''
+    if h['len']:
+      if i + 1 >= len(chunks) or isinstance(chunks[i + 1][1], bytes):
+        return 'header %r at chunk %d is not followed by its payload' % (h, i)
+      payload = chunks[i + 1][1]
+      if chunks[i + 1][0] != w:
+        return 'payload after header %r was written by another thread' % (h,)
+      i += 1
+    if len(payload) != h['len'] or fk.checksum(payload) != h['sum']:
+      return 'frame %r carries a payload that does not match its header' % (h,)
+    got.append((h['cmd'], h['arg0'], h['arg1'], payload))
+    i += 1
+  if sorted(got) != sorted(expected):
+    return '%d frames on the wire, %d written' % (len(got), len(expected))
+  return None
+
+
+def check_scheduled(case):
+  """(e') two writers on one adapter under the deterministic scheduler; a writer's timeout may expire during its header write.
+
+  case = {'writers': [[frame, ...], [frame, ...]], 'expire': [bool per writer], 'plan': {k: choice}}
+  """
+  from vf import vmode  # pylint: disable=g-import-not-at-top
+  from vf import vsched as V  # pylint: disable=g-import-not-at-top
+  import threading as real_threading  # pylint: disable=g-import-not-at-top
+  r = CaseResult()
+  vmode.setup(usb=True)
+  vmode.quiet_logging()
+  m = fk.load()
+  V.monitor_lines(V.code_objects_of(m.adb_message.AdbTransportAdapter))
+  plan = {int(k): v for k, v in (case.get('plan') or {}).items()}
+
+  def fn(s):
+    from openhtf.util import timeouts  # pylint: disable=g-import-not-at-top
+    wire = []
+    current = {}
+
+    class T(object):
+      def write(self, data, timeout_ms=None):
+        me = s.me().idx
+        wire.append((me, data))
+        if isinstance(data, bytes) and len(data) == 24 and current.get(me) is not None and current[me][1]:
+          current[me][0].expire()
+        s.yield_point('transport.write')
+        return len(data)
+
+      def read(self, n, timeout_ms=None):
+        raise fk.timeout_error()
+
+      def close(self):
+        pass
+
+    ad = m.adb_message.AdbTransportAdapter(T())
+    errs = []
+
+    def writer(i):
+      for f in case['writers'][i]:
+        to = timeouts.PolledTimeout.from_millis(5000)
+        current[s.me().idx] = (to, case['expire'][i])
+        try:
+          ad.write_message(mk_msg(m, f), to)
+        except Exception as e:  # pylint: disable=broad-except
+          errs.append(repr(e))
+
+    ths = []
+    for i in range(len(case['writers'])):
+      t = real_threading.Thread(target=writer, args=(i,), name='writer%d' % i)
+      t.daemon = True
+      t.start()
+      ths.append(t)
+    for t in ths:
+      t.join()
+    return wire, errs
+
+  s = V.Scheduler(plan=plan, time_limit=1e4, max_steps=50000)
+  res, exc = s.run(lambda: fn(s), watchdog_s=15.0)
+  if s.failure is not None:
+    if s.failure[0] in ('deadlock', 'steplimit'):
+      r.bad('C13/scheduled/hang', s.failure[1][:300])
+      return r, s
+    raise RuntimeError('scheduler failure %r' % (s.failure,))
+  if exc is not None:
+    r.bad('C13/scheduled/raised', repr(exc))
+    return r, s
+  wire, errs = res
+  if errs:
+    r.bad('C13/scheduled/writer-raised', errs[0])
+  expected = [tuple(f) for w in case['writers'] for f in w]
+  bad = parse_wire(wire, expected)
+  if bad:
+    r.bad('C13/scheduled/writers-interleaved', '%s; expire=%r plan=%r wire=%r' % (bad, case['expire'], case.get('plan'), [(w, len(c)) for w, c in wire]))
+  r.nontrivial = bool(s.effective_preemptions)
+  r.classes = ['scheduled', 'expire:%s' % any(case['expire']), 'preemptions:%d' % min(len(s.effective_preemptions), 3)]
+  return r, s
+
+
+SCHED_CASES = [
+    {'writers': [[['WRTE', 1, 2, 'aaaa']], [['OKAY', 3, 4, 'bb']]], 'expire': [True, False]},
+    {'writers': [[['WRTE', 1, 2, 'aaaa'], ['CLSE', 1, 2, 'c']], [['WRTE', 3, 4, 'bb'], ['WRTE', 3, 4, 'dd']]], 'expire': [True, True]},
+    {'writers': [[['WRTE', 1, 2, 'aaaa']], [['OKAY', 3, 4, 'bb']], [['OPEN', 5, 0, 'x']]], 'expire': [False, False, False]},
+]
 
 
 FRAME = st.tuples(st.sampled_from(CMDS), U32, U32, PAYLOAD).map(list)
@@ -354,6 +475,8 @@ def plan(tier, seed):
     jobs.append({'kind': 'raw', 'name': 'raw%d' % i, 'hseed': seed * 1000 + 100 + i, 'n': 1500 if q else 40000})
   for i in range(4):
     jobs.append({'kind': 'conc', 'name': 'conc%d' % i, 'hseed': seed * 1000 + 200 + i, 'n': 40 if q else 800})
+  for ci in range(len(SCHED_CASES)):
+    jobs.append({'kind': 'sched', 'name': 'sched%d' % ci, 'case': ci, 'bound': 2 if (not q or ci == 0) else 1})
   return jobs
 
 
@@ -377,6 +500,22 @@ def run_job(job, acct):
   elif job['kind'] == 'raw':
     hyp.search(acct, RAW, check_stream, seed=job['hseed'], max_examples=job['n'], known=known,
                to_json=lambda c: {'raw': c})
+  elif job['kind'] == 'sched':
+    import itertools  # pylint: disable=g-import-not-at-top
+    base = SCHED_CASES[job['case']]
+    r0, s0 = check_scheduled(base)
+    n = s0.k + 4
+    count = 0
+    for b in range(0, job['bound'] + 1):
+      for ks in itertools.combinations(range(n), b):
+        for cs in itertools.product((0, 1), repeat=b):
+          case = dict(base, plan={str(k): c for k, c in zip(ks, cs)})
+          r, _ = check_scheduled(case)
+          count += 1
+          acct.case({'sched': case}, r.nontrivial, r.classes)
+          for sig, detail in r.violations:
+            (acct.known if sig in known else acct.violation)(sig, {'sched': case}, detail)
+    acct.exhaustive_parts.append('scheduled writers case %d: all schedules with <=%d preemptions over %d yield points' % (job['case'], job['bound'], n))
   elif job['kind'] == 'conc':
     hyp.search(acct, concurrent_cases(), check_concurrent, seed=job['hseed'], max_examples=job['n'], known=known, shrink=False,
                to_json=lambda c: {'conc': c})
@@ -388,6 +527,8 @@ def replay(case):
     return (res[0] if isinstance(res, tuple) else res).violations
   if 'raw' in case:
     return check_stream(case['raw']).violations
+  if 'sched' in case:
+    return check_scheduled(case['sched'])[0].violations
   out = []
   for _ in range(20):  # schedules are not replayable: repeat
     out = check_concurrent(case['conc']).violations
